@@ -49,6 +49,7 @@ def template(draw):
             tr = draw(st.sampled_from([["abs", draw(st.integers(1, 9))], ["repeat", draw(st.integers(0, 3))],
                                        ["timeout", draw(st.sampled_from(["0.125", "0.25", "0.375"]))], ["cnt", draw(st.integers(1, 4))],
                                        ["m", draw(st.integers(1, 4))],
+                                       ["elapsed", draw(st.sampled_from(["0.125", "0.25", "0.5"]))], ["recurred", draw(st.integers(1, 4))],
                                        ["markgate", draw(st.integers(2, 10)), draw(st.sampled_from(["changed", "updated"]))]]))
         else:
             tr = draw(st.sampled_from([None, ["done"], ["loop", draw(st.integers(2, 9))]]))
@@ -62,8 +63,12 @@ def template(draw):
         clones.append({"frame": draw(st.sampled_from(["f1", "f1", "f2"])),
                        "tag": draw(st.sampled_from(["mine", "c%d" % j])),
                        "via": draw(st.sampled_from([None, "ino%d" % j, "me.ino%d" % j, "ino%d" % j]))})
-    rear = draw(st.sampled_from([None, {"n": draw(st.integers(1, 3)), "raze": draw(st.sampled_from([None, "all", "first", "last"])),
-                                        "static_in_f4": draw(st.booleans())}]))
+    rear = None
+    if draw(st.integers(0, 2)):
+        rear = {"n": draw(st.integers(1, 3)), "raze": draw(st.sampled_from([None, "all", "first", "last", "last"])),
+                "static_in_f4": draw(st.integers(0, 2)) > 0,
+                # several raze verbs in one pass: more razes than reared clones are left
+                "razes": draw(st.sampled_from([1, 1, 2, 3, 4]))}
     # inode-relative data (`m of me`) is only private to a clone when every clone has its own inode:
     # either the template uses it and then gives every static clone a distinct `via` (nested: me-relative)
     # and rears nothing, or it does not use it at all
@@ -71,7 +76,14 @@ def template(draw):
     if any(fr["tr"] and fr["tr"][0] == "markgate" for fr in body):
         # a reared clone is a NEW framer with fresh marks each time it is reared, the long lived original it is compared
         # with keeps the marks of its earlier entries: marker conditions are only compared for static clones
-        rear = None
+        if rear and draw(st.booleans()):
+            for fr in body:
+                if fr["tr"] and fr["tr"][0] == "markgate":
+                    fr["tr"] = ["abs", fr["tr"][1]]
+        else:
+            rear = None
+    if use_m and rear and draw(st.booleans()):
+        use_m = False
     if use_m:
         rear = None
         for j, c in enumerate(clones):
@@ -146,6 +158,10 @@ def moot_lines(name, body, nested, sched, use_m=False, hier=None):
                 L.append("repeat %d" % tr[1])
             elif tr[0] == "timeout":
                 L.append("timeout %s" % tr[1])
+            elif tr[0] == "elapsed":
+                L.append("go next if elapsed >= %s" % tr[1])
+            elif tr[0] == "recurred":
+                L.append("go next if not recurred < %d" % tr[1])
             elif tr[0] == "cnt":
                 L.append("go next if cnt of framer >= %d" % tr[1])
             elif tr[0] == "m":
@@ -198,7 +214,8 @@ def script(tp, baseline=None):
     L.append("frame f5")
     if rear and rear["raze"]:
         L.append("enter")
-        L.append(("raze %s in frame f4" % rear["raze"]) if baseline is None else PLACEHOLDER)
+        for _ in range(rear.get("razes", 1)):
+            L.append(("raze %s in frame f4" % rear["raze"]) if baseline is None else PLACEHOLDER)
     L.append("go f4 if elapsed >= %s" % (0.125 * tp["t4"]) if tp["loop"] else "go f1 if elapsed >= %s" % (0.125 * tp["t4"]))
     sec = tp.get("second")
     if sec:
